@@ -183,7 +183,7 @@ def facts18(fname, fn, rel, defs, order):
 
 def main():
     out = ["(* GENERATED by lib/gen_C18.py from %s -- do not edit *)" % cxxast.REPO,
-           "From Coq Require Import ZArith Bool.", "Local Open Scope Z_scope.", "Local Open Scope bool_scope.", ""]
+           "From Coq Require Import ZArith Bool List.", "Local Open Scope Z_scope.", "Local Open Scope bool_scope.", ""]
     msgs = []
     try:
         fn = cxxast.function_decl(REL, "ProtobufCodecLite::onMessage")
@@ -213,6 +213,24 @@ def main():
     for nm in order:
         out.append(defs[nm])
         out.append("")
+    # the tag of RpcCodec: const char rpctag [] = "RPC0"
+    try:
+        rel = "muduo/net/protorpc/RpcCodec.cc"
+        val = None
+        for d in cxxast.dump(rel, "rpctag"):
+            for v in cxxast.find(d, "VarDecl", "rpctag"):
+                for x in cxxast.walk(v):
+                    if x.get("kind") == "StringLiteral":
+                        val = x.get("value", "")
+        if val is None or not (val.startswith('"') and val.endswith('"')) or "\\" in val:
+            raise cxxast.Untranslatable("no plain string initialiser for rpctag")
+        codes = [ord(c) for c in val[1:-1]]
+        out.append("(* %s: const char rpctag [] = %s *)" % (rel, val))
+        out.append("Definition RpcCodec_rpctag : list Z := %s%%list." % ("(" + " :: ".join(str(c) for c in codes) + " :: nil)"))
+        out.append("")
+    except Exception as e:  # noqa
+        out.append("(* MISSING RpcCodec_rpctag: %s *)" % str(e).replace("*)", ""))
+        msgs.append("MISSING RpcCodec_rpctag")
     for r in REQUIRED:
         if r not in defs or defs[r].startswith("(* untranslated"):
             out.append("(* MISSING %s *)" % r)
